@@ -473,8 +473,13 @@ impl SubRule {
         let max = match_max.unwrap_or(usize::MAX);
         while index < max {
             *state_index = back_state;
+            let before_rep = *pos;
             if self.match_opt_states(opt_states, word, pos, forwards)? {
                 let rep_pos = *pos;
+                if rep_pos == before_rep {
+                    // the optional matched without consuming anything (e.g. `(#,0)`): more repetitions change nothing
+                    return Ok(false)
+                }
                 let mut m = true;
                 while *state_index < states.len() {
                     if !self.context_match(states, state_index, word, pos, forwards, false)? {
